@@ -105,6 +105,13 @@ type Case struct {
 	// BusyTarget: the target is inside a (held) handler of an unrelated state while the source toggles,
 	// so every forwarded call is queued on the target; released once the source has finished
 	BusyTarget bool `json:"busy_target,omitempty"`
+	// ReleaseAfter (with BusyTarget): release the target after this many source steps instead of after
+	// the whole workload, so that later forwarded calls meet a target that is in the middle of an
+	// earlier forwarded transition. 0 = release at the end.
+	ReleaseAfter int `json:"release_after,omitempty"`
+	// SlowTargetUs: negotiation handlers of the piped target states take this long (no veto): widens the
+	// window in which a forwarded mutation has been popped from the target's queue but is not applied yet
+	SlowTargetUs int `json:"slow_target_us,omitempty"`
 }
 
 func (c Case) key() string { b, _ := json.Marshal(c); return string(b) }
@@ -220,14 +227,27 @@ func runCase(c Case, st *ev.Stats) error {
 	case "Flat":
 		fin := map[string]am.HandlerFinal{}
 		for _, p := range pairs {
-			fin[p.s+am.SuffixState] = ampipe.AddFlat(src, px, p.s, p.t)
-			fin[p.s+am.SuffixEnd] = ampipe.RemoveFlat(src, px, p.s, p.t)
+			fin[p.s+am.SuffixState] = ampipe.AddFlat(src, tgt, p.s, p.t)
+			fin[p.s+am.SuffixEnd] = ampipe.RemoveFlat(src, tgt, p.s, p.t)
 		}
 		if _, err := src.HandlersBindMaps(nil, fin); err != nil {
 			return err
 		}
 	}
 
+	if c.SlowTargetUs > 0 {
+		neg := map[string]am.HandlerNegotiation{}
+		slow := func(*am.Event) bool { time.Sleep(time.Duration(c.SlowTargetUs) * time.Microsecond); return true }
+		for _, p := range pairs {
+			neg[p.t+am.SuffixEnter] = slow
+			neg[p.t+am.SuffixExit] = slow
+		}
+		if len(neg) > 0 {
+			if _, err := tgt.HandlersBindMaps(neg, nil); err != nil {
+				return err
+			}
+		}
+	}
 	hold, entered := make(chan struct{}), make(chan struct{})
 	if c.BusyTarget {
 		var once sync.Once
@@ -244,14 +264,14 @@ func runCase(c Case, st *ev.Stats) error {
 			return fmt.Errorf("setup: the target did not enter the held handler")
 		}
 	}
-	released := false
+	var relOnce sync.Once
 	release := func() {
-		if c.BusyTarget && !released {
-			released = true
-			close(hold)
+		if c.BusyTarget {
+			relOnce.Do(func() { close(hold) })
 		}
 	}
 	defer release()
+	var stepsDone atomic.Int32
 
 	// workload
 	single := len(c.Programs) == 1
@@ -265,6 +285,9 @@ func runCase(c Case, st *ev.Stats) error {
 				r := rec.Apply(src, s)
 				if single {
 					srcRes = append(srcRes, r)
+				}
+				if n := stepsDone.Add(1); c.ReleaseAfter > 0 && int(n) == c.ReleaseAfter {
+					release()
 				}
 			}
 		}(gi, p)
@@ -450,7 +473,7 @@ func keys(m map[string]bool) []string {
 	return r
 }
 
-var binds = []string{"Bind", "Bind", "BindMany", "BindMany", "BindReady", "BindErr", "BindConnected", "BindAny", "Flat"}
+var binds = []string{"Bind", "Bind", "BindMany", "BindMany", "BindReady", "BindErr", "BindConnected", "BindAny", "Flat", "Flat", "Flat"}
 
 func genCase(t *rapid.T) Case {
 	sc := gen.GenSchema(t, gen.SchemaOpts{MinStates: 2, MaxStates: 5})
@@ -487,6 +510,12 @@ func genCase(t *rapid.T) Case {
 		c.Programs = append(c.Programs, p)
 	}
 	c.BusyTarget = rapid.IntRange(0, 2).Draw(t, "busyTarget") == 0
+	if c.BusyTarget && rapid.Bool().Draw(t, "releaseEarly") {
+		c.ReleaseAfter = rapid.IntRange(1, 3).Draw(t, "releaseAfter")
+	}
+	if c.Bind != "BindAny" && c.Bind != "BindErr" {
+		c.SlowTargetUs = rapid.SampledFrom([]int{0, 200, 1000, 1000}).Draw(t, "slowTargetUs")
+	}
 	nd := rapid.IntRange(0, 4).Draw(t, "delays")
 	for i := 0; i < nd; i++ {
 		c.Delays = append(c.Delays, rapid.SampledFrom([]int{0, 0, 50, 300, 1500}).Draw(t, "delay"))
@@ -496,7 +525,7 @@ func genCase(t *rapid.T) Case {
 
 func TestPipes(t *testing.T) {
 	st := ev.G()
-	st.SetRapid(600, 30000, 1)
+	st.SetRapid(1000, 30000, 1)
 	rapid.Check(t, func(t *rapid.T) {
 		c := genCase(t)
 		st.Journal(map[string]any{"kind": "c18", "case": c})
